@@ -93,3 +93,51 @@ func (m *modInfo) otherMachine() {
 		}
 	}
 }
+
+// otherSettings: a cache entry is looked up by its NAME alone, so the name has to determine the content: whatever
+// configuration knob is turned (memory limit, capacity-from-max, debug information), a process that writes an entry
+// under the name this module has under the default configuration must write the same bytes - otherwise a reader
+// configured differently executes code compiled for the writer's configuration.  "Content" = what is executed (function
+// offsets, machine code); the source map that follows it is tooling and may follow the writer's debug-info setting.  (Knobs that DO change the name -
+// listeners, close-on-context-done - are free to change the content.)
+func (m *modInfo) otherSettings() {
+	in := func(setting string) map[string]any {
+		return map[string]any{"module": m.Name, "module_hex": trunc(hex.EncodeToString(m.Bytes)), "settings_of_the_writer": setting}
+	}
+	for _, set := range [][]string{{"-limit", "1"}, {"-limit", "2"}, {"-limit", "3"}, {"-limit", "17"}, {"-cfm"}, {"-nodebug"}, {"-limit", "1", "-cfm"}} {
+		name := fmt.Sprint(set)
+		dir := freshDir("set-" + m.Name)
+		_, co := m.run(filepath.Join(dir, "cache"), nil, append([]string{"-noexec"}, set...)...)
+		rep.Case("other-settings:" + m.Name + ":" + name)
+		if co.ExitCode != 0 {
+			rep.Count("other-settings:compile-refused-under-this-setting") // e.g. the module's minimum exceeds the limit
+			os.RemoveAll(dir)
+			continue
+		}
+		for n, e := range entriesOf(filepath.Join(dir, "cache")) {
+			if n != m.EntryName {
+				rep.Count("other-settings:other-name")
+				continue
+			}
+			// what a reader EXECUTES: function offsets and machine code.  The source map behind them (present only
+			// when debug information is kept) is tooling: its presence may follow the writer's configuration.
+			le, lm := parseEntry(e), m.Lay
+			sameCode := le != nil && le.valid && lm != nil && bytes.Equal(le.Exec, lm.Exec) && fmt.Sprint(le.Offsets) == fmt.Sprint(lm.Offsets)
+			if !bytes.Equal(e, m.Entry) && sameCode {
+				rep.Count("other-settings:same-code-other-source-map")
+			}
+			if !sameCode {
+				diff := 0
+				for diff < len(e) && diff < len(m.Entry) && e[diff] == m.Entry[diff] {
+					diff++
+				}
+				violate("impl-violation", "C13:same-entry-name-different-content-under-other-settings:"+m.Name,
+					fmt.Sprintf("compiled under %s the module gets the SAME entry name as under the default configuration but other function offsets / machine code (%d vs %d bytes, first difference at byte %d, region %s): a process with the default configuration that finds this entry executes code compiled for the other configuration", name, len(e), len(m.Entry), diff, m.Lay.regionOf(diff)),
+					in(name), fmt.Sprintf("%d bytes identical to the default configuration's entry", len(m.Entry)), fmt.Sprintf("len=%d", len(e)))
+			} else {
+				rep.Count("other-settings-ok")
+			}
+		}
+		os.RemoveAll(dir)
+	}
+}
